@@ -149,6 +149,8 @@ class Path:
             return self.decided[cid]
         if self.pos < len(self.decisions):
             d = self.decisions[self.pos]
+            if isinstance(d, tuple):
+                raise HarnessError('decision replay mismatch (a realisation was recorded here)')
         else:
             rt = self.check(cond)
             if rt == 'unknown':
@@ -171,22 +173,41 @@ class Path:
         return d
 
     def realise(self, e, site='?', limit=70000):
-        """Concrete value of BV term e on this path, forking over all feasible values."""
+        """Concrete value of BV term e on this path, forking over all feasible values.  The value chosen is recorded in the
+        decision list, so that a re-execution replays exactly the same case split (solver models are not reproducible)."""
         s = z3.simplify(e)
         if z3.is_bv_value(s):
             return s.as_signed_long()
         n = 0
         while True:
+            if self.pos < len(self.decisions):
+                d = self.decisions[self.pos]
+                if not isinstance(d, tuple):
+                    raise HarnessError('decision replay mismatch at ' + site)
+                _, v, taken = d
+                self.pos += 1
+                cond = e == v
+                self.assume(cond if taken else z3.Not(cond))
+                if taken:
+                    return v
+                n += 1
+                if n > limit:
+                    raise HarnessError('realise: too many values at ' + site)
+                continue
             r, m = self.check(model=True)
             if r != 'sat':
                 raise Inconclusive('realise: %s' % r) if r == 'unknown' else Abort()
             v = m.eval(e, model_completion=True).as_signed_long()
             self.stats.realisations[site] = self.stats.realisations.get(site, 0) + 1
-            if self.branch(e == v):
-                return v
-            n += 1
-            if n > limit:
-                raise HarnessError('realise: too many values at ' + site)
+            rf = self.check(e != v)
+            if rf == 'unknown':
+                raise Inconclusive('solver unknown in realise')
+            if rf == 'sat':
+                self.pending.append(self.decisions[:self.pos] + [('r', v, False)])
+            self.decisions.append(('r', v, True))
+            self.pos += 1
+            self.assume(e == v)
+            return v
 
     def obligation(self, kind, cond):
         cond = z3.simplify(cond)
@@ -546,7 +567,8 @@ class SymInt:
         s = static(self, o)
         if s is not None:
             return s
-        return SymBool(f(self.e, o.e))
+        a, b = _diff_form(self, o)
+        return SymBool(f(a, b))
 
     def __lt__(self, o):
         return self._cmp(o, lambda a, b: a < b, lambda x, y: True if x.hi < y.lo else (False if x.lo >= y.hi else None))
@@ -566,7 +588,8 @@ class SymInt:
             return False
         if self.hi < c.lo or self.lo > c.hi:
             return False
-        return SymBool(self.e == c.e)
+        a, b = _diff_form(self, c)
+        return SymBool(a == b)
 
     def __ne__(self, o):
         c = self._coerce(o)
@@ -574,7 +597,8 @@ class SymInt:
             return True
         if self.hi < c.lo or self.lo > c.hi:
             return True
-        return SymBool(self.e != c.e)
+        a, b = _diff_form(self, c)
+        return SymBool(a != b)
 
     def __bool__(self):
         if self.lo > 0 or self.hi < 0:
@@ -582,6 +606,8 @@ class SymInt:
         return Path.cur.branch(self.e != 0)
 
     def __hash__(self):
+        if HASH_BY_IDENTITY:
+            return id(self)
         return hash(Path.cur.realise(self.e, 'hash'))
 
     def __index__(self):
@@ -601,6 +627,22 @@ class SymInt:
 
     def bit_length(self):
         raise HarnessError('bit_length on symbolic int')
+
+
+# When set by a harness, hashing a SymInt does not realise it: it hashes by identity.  Only sound where the code under test
+# uses symbolic values as keys of a cache whose misses are harmless (stated by the check that sets it).
+HASH_BY_IDENTITY = False
+
+
+def _diff_form(x, y):
+    """operands for comparing x with y.  When both are compound terms the comparison is made on (x - y) against 0: z3's
+    simplifier cancels common summands, whereas comparing two differently associated 64-bit sums is very hard for the
+    bit-vector solver.  Sound because the interval guard keeps every value within +-2^62 (no wrap in x - y)."""
+    if z3.is_bv_value(x.e) or z3.is_bv_value(y.e) or z3.is_const(x.e) and z3.is_const(y.e):
+        return x.e, y.e
+    if not (x._bounded() and y._bounded()):
+        return x.e, y.e
+    return z3.simplify(x.e - y.e), z3.BitVecVal(0, W)
 
 
 def _default_fmt(v, spec=''):
